@@ -11,6 +11,8 @@ Line-protocol driver of the C14 model (`Model/ServerAuth`).
         S      : x<hex of UTF-8 bytes> | =<literal, `~` for a space>
   restart                                                  → ok dbs=<sorted open databases>   (clean stop, start)
   crash                                                    → ok dbs=…   (the process dies, the next one loads what is durable)
+  begin <id> <VERB> <target> … (as req)                    → ok   (head of a request; its body is withheld)
+  finish <id>                                              → the response, decided NOW (`handleSplit`)
   fault <k>                                                → ok   (the PUT of the primary's metadata object fails after k more such PUTs)
   fault2 <k>                                               → ok   (same, but the object IS written before the failure is reported)
   nofault                                                  → ok   (disarm)
@@ -163,6 +165,8 @@ def showTable (t : List Gen.ServerMethods.ParseRow) : String :=
 structure DrvState where
   cfg : Cfg
   s : State
+  /-- requests whose body is withheld: id, the request, the state when its head arrived -/
+  pending : List (String × Request × State) := []
 
 def step (d : DrvState) (line : String) : DrvState × String :=
   match words line with
@@ -182,6 +186,16 @@ def step (d : DrvState) (line : String) : DrvState × String :=
     -- the process dies without flushing: the next one loads what is durable
     let s' := crash d.cfg d.s
     ({ d with s := s' }, s!"ok dbs={showNames s'.opened}")
+  | "begin" :: id :: rest =>
+    match request? rest with
+    | some r => ({ d with pending := (id, r, d.s) :: d.pending.filter (·.1 ≠ id) }, "ok")
+    | none => (d, "err:parse")
+  | ["finish", id] =>
+    match d.pending.find? (·.1 = id) with
+    | some (_, r, sBegin) =>
+      let (s', resp) := handleSplit d.cfg sBegin d.s r
+      ({ d with s := s', pending := d.pending.filter (·.1 ≠ id) }, showResponse resp)
+    | none => (d, "err:nopending")
   | ["nofault"] => ({ d with s := { d.s with faultIn := none } }, "ok")
   | ["fault2", k] =>
     match k.toNat? with
